@@ -3,7 +3,7 @@ D = "internal/dnsserver"
 CHECK = dict(
     level="exploration",
     level_text="Generated-input search over (history, next message) pairs on every pooled receive path: rapid draws histories of valid marker messages and a next message that is valid, truncated, declares more records than it carries or points beyond its own end; a real plain-DNS server on loopback (UDP, TCP with queries of up to 60 KiB beyond the initial pooled buffer size, frames split in two segments) and one behind a bindtodevice.Manager bound to lo (the receive path of interface listeners, with its own pooled body buffers) echo a digest of the decoded request; the decoding result of the warmed real code must equal the decoding of the next message's own bytes in a buffer of exactly its length (reference decode), and must not contain any marker. Truncation offsets are also enumerated exhaustively for fixed messages.",
-    level_note="Trusts miekg/dns Unpack as the reference decoder of a message's own bytes. Buffer reuse relies on sync.Pool handing back the same buffer on the same goroutine (a pool miss only costs sensitivity). DoH bodies are read with io.ReadAll (no pooled buffer) and are not exercised here. The bind-to-device part needs CAP_NET_RAW (SO_BINDTODEVICE on lo); without it that part is skipped and says so in the evidence.",
+    level_note="Trusts miekg/dns Unpack as the reference decoder of a message's own bytes. Buffer reuse relies on sync.Pool handing back the same buffer on the same goroutine (a pool miss only costs sensitivity). DoH request bodies (POST over HTTP/2 and HTTP/1.1, GET) are exercised over real loopback servers after bodies that were cut short; HTTP/3 bodies are not. The bind-to-device part needs CAP_NET_RAW (SO_BINDTODEVICE on lo); without it that part is skipped and says so in the evidence.",
     technique="property-based testing (rapid) + bounded-exhaustive cut points + native coverage-guided fuzzing of the two in-memory read paths (thorough tier): warmed real read path vs reference decode of the message's own bytes, marker-leak detector",
     assumptions=[
         "miekg/dns Unpack of a byte slice of exactly the message's length is the reference semantics of 'its own bytes'",
@@ -27,6 +27,9 @@ CHECK = dict(
         dict(name="dnsserver-ext", dir=D, src="C06/dnsserver_ext", runs=[
             dict(name="doq-streams", run="^TestVerifC06DoQStreams$", quick=150, thorough=3000, shards_thorough=3),
             dict(name="doq-streams-1p", run="^TestVerifC06DoQStreams$", quick=100, thorough=1500, shards_thorough=2, env={"GOMAXPROCS": "1"}),
+            # DoH bodies: judged requests after POST bodies that were cut short
+            dict(name="doh-bodies", run="^TestVerifC06DoHBodies$", quick=200, thorough=4000, shards_thorough=3),
+            dict(name="doh-bodies-1p", run="^TestVerifC06DoHBodies$", quick=150, thorough=2000, shards_thorough=2, env={"GOMAXPROCS": "1"}),
         ]),
         dict(name="bindtodevice", dir="internal/bindtodevice", src="C06/bindtodevice", runs=[
             dict(name="btd-udp", run="^TestVerifC06BindToDevice$", quick=300, thorough=3000, shards_thorough=2),
